@@ -204,7 +204,7 @@ def check(program: Program, run: Run) -> None:
         fq = f"{cn}.{m}"
         for part, conds, in_rep in walk_parts(sk):
             src = getattr(part, "src", ())
-            if not src or src[0] != fq:
+            if not src or fq not in src[3]:
                 continue
             if isinstance(part, Hole) and show(part.value).endswith(".alias") and attr in show(part.value):
                 alias_holes += 1
